@@ -29,7 +29,7 @@ class ProducerError(Exception):
 class WsgiRun:
     """a real SendEventResponse whose threads move only when granted"""
 
-    def __init__(self, n, raise_at):
+    def __init__(self, n, raise_at, cleanup_raises=False):
         import baize.wsgi.responses as R
         self.R = R
         self.s = s = sched.Sched()
@@ -53,7 +53,15 @@ class WsgiRun:
                     run.yields += 1
                     yield {"data": str(i)}
                 s.point("exhausted")
-            finally:
+            except GeneratorExit:
+                run.log.append("closed")
+                if cleanup_raises:
+                    raise ProducerError("cleanup failed")
+                raise
+            except BaseException:
+                run.log.append("closed")
+                raise
+            else:
                 run.log.append("closed")
 
         class Iterable:
@@ -275,7 +283,7 @@ def replay_wsgi(ctx, g):
         init, path = g.path_to(parent, a)
         st0 = g.state(init)
         steps = [l for l, _ in path] + [lab]
-        run = WsgiRun(st0["n"], st0["raiseAt"])
+        run = WsgiRun(st0["n"], st0["raiseAt"], st0["cleanupRaises"])
         reached = set()
         try:
             ok = True
@@ -294,7 +302,7 @@ def replay_wsgi(ctx, g):
                         run._gen_started = True
             run._reached = reached
             exp = g.state(b)
-            case = {"n": st0["n"], "raise_at": st0["raiseAt"], "schedule": steps}
+            case = {"n": st0["n"], "raise_at": st0["raiseAt"], "cleanup_raises": st0["cleanupRaises"], "schedule": steps}
             if ok:
                 o = run.observe()
                 model = {"rpc": exp["rpc"], "cpc": exp["cpc"], "delivered": list(exp["delivered"]), "pings": exp["pings"],
@@ -317,7 +325,7 @@ def replay_wsgi(ctx, g):
             ctx.traces_validated += 1
             n_edges += 1
             if "SrvClose" in steps or st0["raiseAt"]:
-                ctx.nontriv(tuple([st0["n"], st0["raiseAt"]] + steps))
+                ctx.nontriv(tuple([st0["n"], st0["raiseAt"], st0["cleanupRaises"]] + steps))
             if n_edges in (40, 400):
                 ctx.sample({"case": case, "observed": run.observe()})
         finally:
